@@ -23,6 +23,8 @@ macro_rules! run_ty {
                 // by-reference impls
                 let q2 = std::panic::catch_unwind(|| <&$T as Lerp<$F>>::lerp_unclamped(&a, &b, f)).ok().map(|v| v as i128);
                 if q2 != q { emit($w, concat!(stringify!($T), "/", stringify!($F), "/ref-differs"), lo, hi, from, to, num, sh, q2); }
+                let p2 = std::panic::catch_unwind(|| <&$T as Lerp<$F>>::lerp_unclamped_precise(&a, &b, f)).ok().map(|v| v as i128);
+                if p2 != p { emit($w, concat!(stringify!($T), "/", stringify!($F), "/ref-precise-differs"), lo, hi, from, to, num, sh, p2); }
             }
         }
     }};
@@ -69,4 +71,27 @@ pub fn run(tier: &str, seed: u64) {
     run_ty!(&mut w, usize, f64, s64u, grid); run_ty!(&mut w, isize, f64, s64i, grid);
     let s64u_f32 = sample(18, false, &[0]); let s64i_f32 = sample(18, true, &[0]);
     run_ty!(&mut w, u64, f32, s64u_f32, grid); run_ty!(&mut w, i64, f32, s64i_f32, grid);
+    // endpoints at the top of the float's exact-integer range (odd values just below 2^24 / 2^53): factors 0 and 1 are
+    // exact there, and 1/2 when the endpoints have the same parity; a rounding shortcut such as `x + 0.5` is not
+    let mut edge = |mant: u32, signed: bool, same_parity: bool| -> Vec<(i128, i128)> {
+        let mut v = vec![];
+        let lo = 1i128 << (mant - 1); let span = (1u64 << (mant - 1)) as u64;
+        for k in 0..(n / 2) {
+            let mut a = lo + (rng.next() % span) as i128; let mut b = lo + (rng.next() % span) as i128;
+            if k % 2 == 0 { a |= 1; }
+            if same_parity { b = (b & !1) | (a & 1); }
+            if signed && k % 3 == 0 { a = -a; b = -b; }
+            v.push((a, b));
+        }
+        let top = (1i128 << mant) - 1;
+        v.push((lo + 1, top)); v.push((top, lo + 1)); v.push((top, top)); v.push((top - 2, top));
+        v
+    };
+    let g01: Vec<(i64, u32)> = vec![(0, 4), (16, 4)]; let g_half: Vec<(i64, u32)> = vec![(8, 4)];
+    let e24u = edge(24, false, false); let e24i = edge(24, true, false); let e24up = edge(24, false, true); let e24ip = edge(24, true, true);
+    run_ty!(&mut w, u32, f32, e24u, &g01); run_ty!(&mut w, i32, f32, e24i, &g01); run_ty!(&mut w, u64, f32, e24u, &g01); run_ty!(&mut w, i64, f32, e24i, &g01);
+    run_ty!(&mut w, u32, f32, e24up, &g_half); run_ty!(&mut w, i32, f32, e24ip, &g_half); run_ty!(&mut w, usize, f32, e24up, &g_half); run_ty!(&mut w, isize, f32, e24ip, &g_half);
+    let e53u = edge(53, false, false); let e53i = edge(53, true, false); let e53up = edge(53, false, true); let e53ip = edge(53, true, true);
+    run_ty!(&mut w, u64, f64, e53u, &g01); run_ty!(&mut w, i64, f64, e53i, &g01); run_ty!(&mut w, usize, f64, e53u, &g01); run_ty!(&mut w, isize, f64, e53i, &g01);
+    run_ty!(&mut w, u64, f64, e53up, &g_half); run_ty!(&mut w, i64, f64, e53ip, &g_half);
 }
